@@ -659,3 +659,52 @@ def borrowed_argument_rule(chk, rel, scope, rule):
                       f'{unparse(node)[:60]} changes the caller\'s {p} ({"; ".join(owners[:2])}): a second call with the same object sees a different request '
                       '(e.g. a reused `subsamples` dict selects nothing the second time)', node=node, nontrivial=False)
     return n
+
+
+# --------------------------------------------------------------------------- H3: calls that can only raise
+BUILTIN_KEYWORDS = {
+    'print': {'sep', 'end', 'file', 'flush'}, 'len': set(), 'range': set(), 'isinstance': set(), 'abs': set(), 'id': set(),
+    'enumerate': {'start', 'iterable'}, 'zip': {'strict'}, 'sorted': {'key', 'reverse'}, 'min': {'key', 'default'}, 'max': {'key', 'default'},
+    'sum': {'start'}, 'round': {'ndigits', 'number'}, 'any': set(), 'all': set(), 'iter': set(), 'next': set(), 'repr': set(), 'type': set(),
+}
+BUILTIN_MAXPOS = {'len': 1, 'abs': 1, 'isinstance': 2, 'range': 3, 'round': 2, 'any': 1, 'all': 1, 'repr': 1, 'id': 1, 'sum': 2, 'next': 2, 'iter': 2}
+
+
+def builtin_signature_rule(chk, rel, scope, rule):
+    """A call of a builtin with a keyword it does not accept (print(..., stacklevel=2)) or with too many positional arguments raises
+    TypeError on every execution that reaches it: the function cannot deliver its result on that path, whatever the property says
+    about the result.  Decided from the call syntax for the builtins of the table above that are not re-bound in the module."""
+    # the file as written on disk: the normal forms drop diagnostic print statements, which are exactly the calls this rule is about
+    tree = ast.parse(chk.src.text_raw(rel))
+    rebound = {n.id for n in ast.walk(tree) if isinstance(n, ast.Name) and isinstance(n.ctx, ast.Store)} | \
+              {a.arg for f in ast.walk(tree) if isinstance(f, (ast.FunctionDef, ast.Lambda)) for a in f.args.args + f.args.kwonlyargs} | \
+              {f.name for f in ast.walk(tree) if isinstance(f, (ast.FunctionDef, ast.ClassDef))} | \
+              {(al.asname or al.name).split('.')[0] for im in ast.walk(tree) if isinstance(im, (ast.Import, ast.ImportFrom)) for al in im.names}
+    table = {}
+    for s_ in tree.body:
+        if isinstance(s_, (ast.FunctionDef, ast.AsyncFunctionDef)):
+            table[s_.name] = s_
+        elif isinstance(s_, ast.ClassDef):
+            for c in s_.body:
+                if isinstance(c, (ast.FunctionDef, ast.AsyncFunctionDef)):
+                    table[f'{s_.name}.{c.name}'] = c
+    n_calls = 0
+    for q in sorted(scope):
+        fn = table.get(q)
+        if fn is None:
+            continue
+        for c in ast.walk(fn):
+            if not (isinstance(c, ast.Call) and isinstance(c.func, ast.Name) and c.func.id in BUILTIN_KEYWORDS and c.func.id not in rebound):
+                continue
+            n_calls += 1
+            name = c.func.id
+            badkw = [k.arg for k in c.keywords if k.arg is not None and k.arg not in BUILTIN_KEYWORDS[name]]
+            npos = len([a for a in c.args if not isinstance(a, ast.Starred)])
+            toomany = name in BUILTIN_MAXPOS and npos > BUILTIN_MAXPOS[name] and not any(isinstance(a, ast.Starred) for a in c.args)
+            if badkw or toomany:
+                why = f"{name}() does not accept the keyword{'s' if len(badkw) > 1 else ''} {', '.join(badkw)}" if badkw else f'{name}() takes at most {BUILTIN_MAXPOS[name]} positional arguments'
+                chk.refuted(rule, rel, q, 'every call of a builtin matches its signature',
+                            f'{unparse(c)[:70]}: {why}: TypeError on every execution that reaches this statement, so the call fails instead of returning its result', line=c.lineno)
+    chk.proven(rule, rel, '<module>', 'every call of a builtin matches its signature', f'{n_calls} calls of builtins in {len(scope)} functions', nontrivial=False)
+    return n_calls
+
